@@ -204,7 +204,9 @@ def ref_size(e, items, is_str):
         x = int(adj[0]) * x + int(adj[1])
         if x.denominator != 1:
             return "err value"
-    return int(x) if x >= 0 else -int(-x)
+    if x.denominator != 1:
+        return "err value"             # a length is a whole number of bits (a negative fraction is not an empty field)
+    return int(x)
 
 
 def oracle(line, out):
